@@ -9,8 +9,7 @@ use crate::vals;
 
 pub const RULE: &str = "case = one call of an integer sum/dot/squared_norm/squared_euclidean routine (every \
 per-backend export, xconst forms, safe functions under each forced dispatcher mask) checked against an i128 \
-accumulation truncated to the element width; inputs: every length 0..=2*dense+7*lane+tail (smart subset in \
-the quick tier) with mixed boundary/random values, constant vectors of every boundary value pair, one-hot / \
+accumulation truncated to the element width; inputs: every length 0..=2*dense+7*lane+tail with mixed boundary/random values, constant vectors of every boundary value pair, one-hot / \
 position-marker vectors (boundary value at index k, zero elsewhere, for every k of the longest length), random \
 volume. distinct = hash set over (routine, DIMS, mask, a, b); non-trivial = length > 0 and some element non-zero.";
 
@@ -21,15 +20,14 @@ fn one_target<T: Elem>(ctx: &mut Ctx, t: Target<T>) {
     let pack = pack_len(&t);
     let lens: Vec<usize> = match (t.r.dims, tier) {
         (Some(d), _) => vec![d],
-        (None, Tier::Quick) => vals::smart_lengths(t.lane, &[]),
-        (None, Tier::Thorough) => (0..=vals::max_len(t.lane)).collect(),
+        (None, _) => (0..=vals::max_len(t.lane)).collect(),
     };
     let mut rng = ctx.rng.split();
     let mut run = Run::new(ctx, t, pack);
     let bvec = |run: &Run<T>, b: Vec<T>| if two { b } else { let _ = run; Vec::new() };
 
     // every length, mixed values
-    let reps = tier.pick(2, 4);
+    let reps = tier.pick(2, 20);
     for &len in &lens {
         for _ in 0..reps {
             let a: Vec<T> = (0..len).map(|_| vals::mixed(&mut rng, &bounds, false)).collect();
@@ -63,7 +61,7 @@ fn one_target<T: Elem>(ctx: &mut Ctx, t: Target<T>) {
     }
     // one-hot / position markers at the longest length
     if pack > 0 {
-        let nvals = tier.pick(2, 6);
+        let nvals = tier.pick(2, 12);
         for k in 0..pack {
             if k % 64 == 0 && run.ctx.out_of_time() {
                 break;
@@ -91,9 +89,9 @@ fn one_target<T: Elem>(ctx: &mut Ctx, t: Target<T>) {
         run.tally.add("class:one_hot_sweeps", 1);
         // random volume
         let n = match (tier, t.r.safe) {
-            (Tier::Quick, _) => 60,
-            (Tier::Thorough, true) => 1000,
-            (Tier::Thorough, false) => 5000,
+            (Tier::Quick, _) => 200,
+            (Tier::Thorough, true) => 5000,
+            (Tier::Thorough, false) => 50000,
         };
         for i in 0..n {
             if i % 64 == 0 && run.ctx.out_of_time() {
